@@ -90,18 +90,22 @@ Proof. exact consult_built_meets_scope. Qed.
 Print Assumptions C02_filters_meet_spec.
 
 (* 7. Request points of the web processor session (Model/Visit.v), for EVERY server strategy,
-      verdict function and robots behaviour: each request on the wire is directly preceded by a
-      passing consult on exactly its URL; waived consults occur only for the follow-up of a redirect
-      response with strong redirects on; robots.txt handling starts only for the item's own URL
-      after it passed unwaived. *)
+      verdict function and robots behaviour: each request on the wire is preceded by a passing
+      consult on exactly its URL - directly, or with only the robots.txt consultation for that
+      same URL in between (redirect targets are robots-checked after they passed the filters);
+      waived consults occur only for the follow-up of a redirect response with strong redirects
+      on; robots.txt handling starts only directly after a passing consult on the URL it is
+      about, and the first one is about the item's own URL. *)
 Theorem C02_every_request_checked :
   forall urljoin parseable (cfg : config) (consult : vstr -> bool -> bool) robots server fuel u ev r,
     process_item urljoin parseable cfg consult robots server fuel u = (ev, r) ->
     (forall pre k rq post, ev = pre ++ ERequest k rq :: post ->
-       exists pre' w, pre = pre' ++ [EConsult (rq_url rq) w true] /\ consult (rq_url rq) w = true /\
+       exists pre' w rb, pre = pre' ++ EConsult (rq_url rq) w true :: rb /\ (rb = [] \/ rb = [ERobots (rq_url rq)]) /\
+                      consult (rq_url rq) w = true /\
                       (w = true -> c_strong_redirects cfg = true /\ k = KFollowup)) /\
     (forall pre x post, ev = pre ++ ERobots x :: post ->
-       x = u /\ pre = [EConsult u false true] /\ consult u false = true).
+       exists pre' w, pre = pre' ++ [EConsult x w true] /\ consult x w = true) /\
+    (forall x post, ev = [EConsult u false true] ++ ERobots x :: post -> x = u).
 Proof. exact every_request_checked. Qed.
 Print Assumptions C02_every_request_checked.
 
@@ -182,3 +186,27 @@ Example C02_nonvacuous_visit :
      ERequest KInitial {| rq_url := [97; 97; 47]%N; rq_pw := false |};
      EConsult [99; 99; 47; 120]%N false false; EStatus VSkipped].
 Proof. vm_compute. split; reflexivity. Qed.
+
+(* the same visit with robots.txt handling on: the redirect target is robots-checked after it passed
+   the filters and before it is requested; when the rules of its origin disallow it, it is skipped
+   without a request; a target the filters refuse is not robots-checked at all *)
+Example C02_nonvacuous_visit_robots :
+  let cfg s := {| c_max_redirects := 3; c_strong_redirects := s; c_password := false; c_robots := true; c_content_on_error := false |} in
+  let consult (u : vstr) (w : bool) := str_eqb (firstn 2 u) [97; 97]%N || w in
+  let server (h : list req) := match h with [_] => Resp 302 (Some [99; 99; 47; 120]%N) | _ => Resp 200 None end in
+  let deny_cc (u : vstr) := if str_eqb (firstn 2 u) [99; 99]%N then RDeny else RAllow in
+  fst (process_item (fun _ l => Some l) (fun _ => true) (cfg true) consult (fun _ => RAllow) server 9 [97; 97; 47]%N)
+  = [EConsult [97; 97; 47]%N false true; ERobots [97; 97; 47]%N; EConsult [97; 97; 47]%N false true;
+     ERequest KInitial {| rq_url := [97; 97; 47]%N; rq_pw := false |};
+     EConsult [99; 99; 47; 120]%N true true; ERobots [99; 99; 47; 120]%N;
+     ERequest KFollowup {| rq_url := [99; 99; 47; 120]%N; rq_pw := false |};
+     EStatus VDone] /\
+  fst (process_item (fun _ l => Some l) (fun _ => true) (cfg true) consult deny_cc server 9 [97; 97; 47]%N)
+  = [EConsult [97; 97; 47]%N false true; ERobots [97; 97; 47]%N; EConsult [97; 97; 47]%N false true;
+     ERequest KInitial {| rq_url := [97; 97; 47]%N; rq_pw := false |};
+     EConsult [99; 99; 47; 120]%N true true; ERobots [99; 99; 47; 120]%N; EStatus VSkipped] /\
+  fst (process_item (fun _ l => Some l) (fun _ => true) (cfg false) consult deny_cc server 9 [97; 97; 47]%N)
+  = [EConsult [97; 97; 47]%N false true; ERobots [97; 97; 47]%N; EConsult [97; 97; 47]%N false true;
+     ERequest KInitial {| rq_url := [97; 97; 47]%N; rq_pw := false |};
+     EConsult [99; 99; 47; 120]%N false false; EStatus VSkipped].
+Proof. vm_compute. repeat split; reflexivity. Qed.
